@@ -336,6 +336,12 @@ impl<'p> CoroutinePool<'p> {
             assert!(self.waits.insert(task_id, arc.clone()).is_none());
             arc
         };
+        // the task may have finished between the first look and the registration:
+        // its notification found nobody to wake
+        if let Some(r) = self.try_take_task_result(task_id) {
+            self.notify(task_id);
+            return Ok(r);
+        }
         if PoolState::Stopped == self.state() {
             // stop() has already released the waiters it knew: nobody would ever wake this one
             _ = self.waits.remove(&task_id);
